@@ -105,6 +105,11 @@ func runEngineHistory(r *ev.Run, id caseID) {
 			resp, err := e.Txn(cctx, req)
 			if err != nil {
 				cancel()
+				if txnOversize(req) {
+					// a key / range end above the documented limit is refused (C16's subject)
+					r.Count("engine_ops_refused_for_oversize_key", 1)
+					continue
+				}
 				fail("txn-error", d, err.Error())
 				return
 			}
@@ -127,6 +132,10 @@ func runEngineHistory(r *ev.Run, id caseID) {
 			resp, err := e.Range(cctx, req)
 			if err != nil {
 				cancel()
+				if len(req.Key) > 1024 || len(req.RangeEnd) > 1024 {
+					r.Count("engine_ops_refused_for_oversize_key", 1)
+					continue
+				}
 				fail("range-error", d, err.Error())
 				return
 			}
@@ -167,4 +176,39 @@ func trunc(b []byte) []byte {
 		return b[:16]
 	}
 	return b
+}
+
+func txnOversize(req *pb.TxnRequest) bool {
+	big := func(b ...[]byte) bool {
+		for _, x := range b {
+			if len(x) > 1024 {
+				return true
+			}
+		}
+		return false
+	}
+	for _, c := range req.Compare {
+		if big(c.Key, c.RangeEnd) {
+			return true
+		}
+	}
+	for _, ops := range [][]*pb.RequestOp{req.Success, req.Failure} {
+		for _, op := range ops {
+			switch o := op.Request.(type) {
+			case *pb.RequestOp_RequestRange:
+				if big(o.RequestRange.Key, o.RequestRange.RangeEnd) {
+					return true
+				}
+			case *pb.RequestOp_RequestPut:
+				if big(o.RequestPut.Key) {
+					return true
+				}
+			case *pb.RequestOp_RequestDeleteRange:
+				if big(o.RequestDeleteRange.Key, o.RequestDeleteRange.RangeEnd) {
+					return true
+				}
+			}
+		}
+	}
+	return false
 }
